@@ -18,10 +18,28 @@ type (
 	}
 )
 
+// Redis strings are byte strings: the comparison works on bytes (one rune per byte), so that
+// indexes are byte offsets and non-UTF-8 content is not mangled.
+func bytesAsRunes(s string) []rune {
+	r := make([]rune, len(s))
+	for i := 0; i < len(s); i++ {
+		r[i] = rune(s[i])
+	}
+	return r
+}
+
+func runesAsBytes(r []rune) string {
+	b := make([]byte, len(r))
+	for i, c := range r {
+		b[i] = byte(c)
+	}
+	return string(b)
+}
+
 func newLongestSeq(str1, str2 string) *longestSeq {
 	ls := &longestSeq{
-		str1: []rune(str1),
-		str2: []rune(str2),
+		str1: bytesAsRunes(str1),
+		str2: bytesAsRunes(str2),
 	}
 
 	// optimization: process common prefix and common suffix without recursion algorithm
@@ -95,7 +113,7 @@ func (ls *longestSeq) longestSequence(minMatchLength int, withMatchLength bool) 
 		begin := str1Indexes[0].(int)
 		end := str1Indexes[1].(int) + 1
 
-		matchText = string(ls.str1[begin:end]) + matchText
+		matchText = runesAsBytes(ls.str1[begin:end]) + matchText
 
 		seqLen := end - begin
 		if seqLen >= minMatchLength {
